@@ -1,2 +1,167 @@
-(* Props/C03.v — placeholder until the proofs land *)
+(* Props/C03.v — property C03: the result of a run does not depend on the completion order of
+   concurrently running nodes; every started node execution is collected exactly once; the run
+   does not hang; batch (Graph) and eager (Workflow) execution.
+   Only statements, each closed by [exact]; proofs are in Proofs/TaskMgr*.v, Proofs/Confluence.v.
+
+   Hand-off protocol (Model/TaskMgr.v): [reach] = every interleaving of executors, collector and
+   run loop.  Go's channel (capacity 1 = one-slot option) and sync.Mutex (atomic sections)
+   semantics are assumed by the model. *)
 From Eino Require Import Base.Util Model.TaskMgr Model.Confluence.
+From Eino Require Import Proofs.TaskMgr Proofs.TaskMgrProgress Proofs.TaskMgrTrace Proofs.Confluence.
+From Coq Require Import Permutation.
+
+(* ---- every finished task is in exactly one of l / done / the collector's hands / collected;
+        an unfinished one in none; collected tasks are distinct and stay collected ---- *)
+Theorem tm_exactly_once : forall s, reach s ->
+  (forall t, pushed s t -> count_occ N.eq_dec (map fst (places s)) t = 1%nat) /\
+  (forall t, ~ pushed s t -> count_occ N.eq_dec (map fst (places s)) t = 0%nat) /\
+  NoDup (map fst (collected s)) /\
+  (forall s', step s s' -> incl (collected s) (collected s')).
+Proof. exact exactly_once. Qed.
+Print Assumptions tm_exactly_once.
+
+(* ---- the collector never sleeps on an empty slot while a finished task waits to be handed over ---- *)
+Theorem tm_no_lost_wakeup : forall s, reach s -> cp s = CWait ->
+  (exists t b, get_pc t (epcs s) = Some (EDone, b) /\ ~ In t (map fst (collected s))) ->
+  done s <> None.
+Proof. exact no_lost_wakeup. Qed.
+Print Assumptions tm_no_lost_wakeup.
+
+(* ---- no hang: deadlock freedom (invariant) + variant ---- *)
+Theorem tm_deadlock_free : forall s, reach s -> drained s \/ exists s', dstep s s'.
+Proof. intros s R. exact (deadlock_free s (inv_reach s R)). Qed.
+Print Assumptions tm_deadlock_free.
+
+Theorem tm_variant : forall s s', dstep s s' -> (mu s' < mu s)%nat.
+Proof. exact dstep_mu. Qed.
+Print Assumptions tm_variant.
+
+(* waitAll (batch mode; also what an eager run would need before returning): on every maximal
+   sequence of protocol steps the collector ends idle with nothing outstanding and has collected
+   exactly the submitted tasks.  The named hypothesis that carves out finding F-C03 is [drained]:
+   the conclusion is about runs whose run loop keeps waiting until num = 0. *)
+Theorem tm_progress : forall s, reach s ->
+  AF (fun s' => drained s' /\ Permutation (map fst (collected s')) (map fst (epcs s))) s.
+Proof. exact progress_all. Qed.
+Print Assumptions tm_progress.
+
+Theorem tm_all_collected_when_drained : forall s, reach s -> drained s ->
+  Permutation (map fst (collected s)) (map fst (epcs s)).
+Proof. intros s R. exact (drained_all_collected s (inv_reach s R)). Qed.
+Print Assumptions tm_all_collected_when_drained.
+
+(* waitOne (eager mode): a wait that has started returns exactly one more task *)
+Theorem tm_progress_one : forall s, reach s -> cp s = CWait ->
+  AF (fun s' => cp s' = CIdle /\ num s' = num s /\ exists x, collected s' = x :: collected s) s.
+Proof. exact progress_one. Qed.
+Print Assumptions tm_progress_one.
+
+(* ---- a panic in a node body is that task's error, and goes through the same hand-off ---- *)
+Theorem tm_panic_is_error : forall s t e p, reach s ->
+  In (t, e) (places s) -> get_pc t (epcs s) = Some (p, BPanic) -> e = true.
+Proof. exact panic_is_error. Qed.
+Print Assumptions tm_panic_is_error.
+
+(* ---- the executable trace checker used by the correspondence only accepts runs of the LTS ---- *)
+Theorem tm_accepts_sound : forall tr, accepts tr = true -> exists s, reach s /\ Inv s /\ settled s = true.
+Proof. exact accepts_sound. Qed.
+Print Assumptions tm_accepts_sound.
+
+(* ---- order side: calculateNextTasks on a permuted completed list (distinct nodes) gives the same
+        next tasks with the same inputs, the same END value, and a lookup-equivalent channel state ---- *)
+Theorem batch_perm_invariant : forall m g s s' cs cs',
+  Permutation cs cs' -> NoDup (map fst cs) -> ceq s s' ->
+  next_eq (calc_next m g s cs) (calc_next m g s' cs').
+Proof. exact calc_next_perm. Qed.
+Print Assumptions batch_perm_invariant.
+
+(* whole batch runs: result and executions are independent of every step's completion order *)
+Theorem batch_order_independent : forall ord m g fuel,
+  NoDup (map n_id g) -> (forall l, Permutation (ord l) l) ->
+  batch ord m g fuel = batch (fun l => l) m g fuel.
+Proof. exact batch_order_independent. Qed.
+Print Assumptions batch_order_independent.
+
+(* the diamond on the channel state: the writes of two different completed tasks commute *)
+Theorem report_diamond : forall g s a b,
+  fst a <> fst b -> ceq (report g (report g s a) b) (report g (report g s b) a).
+Proof. exact report_diamond. Qed.
+Print Assumptions report_diamond.
+
+(* ---- finding F-C03 (known, not repaired): an eager run returns as soon as END is ready; a node
+        that does not feed END is then still running and is never collected.  Witness:
+        START -> {3, 4}, only 3 feeds END.  (corpus/C03/f_c03_eager_slow_non_ancestor.json) ---- *)
+Definition g_fc03 : graph := [mkn 3 [0%N] 0; mkn 4 [0%N] 0; mkn 1 [3%N] 0].
+
+Theorem eager_return_leaves_uncollected_refuted :
+  ~ (forall pick g fuel v log left,
+       NoDup (map n_id g) -> eager pick g fuel = (ODone v, log, left) -> left = []).
+Proof.
+  intros H. specialize (H (fun _ => O) g_fc03 10%nat).
+  assert (E : eager (fun _ => O) g_fc03 10 = (ODone [3;0;2;0;1;1]%N, [(3, [2;0;1]); (4, [2;0;1])]%N, [4%N]))
+    by (vm_compute; reflexivity).
+  specialize (H _ _ _ ltac:(vm_compute; repeat constructor; simpl; intuition discriminate) E).
+  discriminate H.
+Qed.
+Print Assumptions eager_return_leaves_uncollected_refuted.
+
+(* the same in the protocol model: the run loop may stop (cp = CIdle) with a task outstanding *)
+Example fc03_protocol_state :
+  exists s, reach s /\ cp s = CIdle /\ num s = 1%nat /\ List.length (collected s) = 1%nat /\ List.length (epcs s) = 2%nat.
+Proof.
+  destruct (run_trace init 0
+     [EvSpawn 3 BOk; EvSpawn 4 BOk; EvAwait; EvLockE 3; EvPush 3 false; EvSend 3; EvUnlockE 3;
+      EvRecv 3 false; EvLockC; EvUnlockC]) as [s|] eqn:E; [|vm_compute in E; discriminate].
+  exists s. split; [eapply run_trace_sound; [apply r_init|exact E]|].
+  vm_compute in E. inversion E; subst; simpl. repeat split.
+Qed.
+
+(* ---- non-vacuity ---- *)
+(* a reachable state with three finished tasks in three different places, a blocked collector is
+   impossible there: l = [5], done = Some 4, collected = [3] *)
+Definition tr_demo : list ev :=
+  [EvSync 3 BOk; EvLockE 3; EvPush 3 false; EvSend 3; EvUnlockE 3; EvSyncRet 3;
+   EvAwait; EvRecv 3 false; EvLockC; EvUnlockC;
+   EvSpawn 4 BPanic; EvSpawn 5 BErr;
+   EvLockE 4; EvPush 4 true; EvSend 4; EvUnlockE 4;
+   EvLockE 5; EvPush 5 true; EvFull; EvUnlockE 5].
+
+Example tm_nonvacuous :
+  exists s, run_trace init 0 tr_demo = inl s /\ reach s /\
+            l s = [(5%N, true)] /\ done s = Some (4%N, true) /\ collected s = [(3%N, false)] /\
+            pushed s 4%N /\ get_pc 4%N (epcs s) = Some (EDone, BPanic).
+Proof.
+  destruct (run_trace init 0 tr_demo) as [s|] eqn:E; [|vm_compute in E; discriminate].
+  exists s. split; [reflexivity|]. split; [eapply run_trace_sound; [apply r_init|exact E]|].
+  vm_compute in E. inversion E; subst; simpl. repeat split.
+  exists EDone, BPanic. split; reflexivity.
+Qed.
+
+(* the collector blocked on the receive with a finished, uncollected task: the slot is full *)
+Example tm_no_lost_wakeup_nonvacuous :
+  exists s, reach s /\ cp s = CWait /\
+            (exists t b, get_pc t (epcs s) = Some (EDone, b) /\ ~ In t (map fst (collected s))) /\
+            done s = Some (4%N, true).
+Proof.
+  destruct (run_trace init 0 (tr_demo ++ [EvAwait])) as [s|] eqn:E; [|vm_compute in E; discriminate].
+  exists s. split; [eapply run_trace_sound; [apply r_init|exact E]|].
+  vm_compute in E. inversion E; subst; simpl. repeat split.
+  exists 4%N, BPanic. split; [reflexivity|]. simpl. intuition discriminate.
+Qed.
+
+(* a complete accepted trace with the late-logged receive (recv 3 overtaken by send 4) *)
+Example accepts_nonvacuous :
+  accepts [EvSpawn 3 BOk; EvSpawn 4 BOk; EvAwait; EvLockE 3; EvPush 3 false; EvSend 3; EvUnlockE 3;
+           EvLockE 4; EvPush 4 false; EvSend 4; EvRecv 3 false; EvUnlockE 4; EvLockC; EvUnlockC;
+           EvAwait; EvRecv 4 false; EvLockC; EvUnlockC; EvEmpty] = true.
+Proof. vm_compute. reflexivity. Qed.
+
+(* batch: a step with three completed tasks, two orders, same next tasks *)
+Definition g_demo : graph :=
+  [mkn 3 [0%N] 0; mkn 4 [0%N] 0; mkn 5 [0%N] 0; mkn 6 [3%N; 4%N] 0; mkn 7 [4%N; 5%N] 0; mkn 1 [6%N; 7%N] 0].
+
+Example batch_nonvacuous :
+  batch (@rev _) Dag g_demo 20 = batch (fun l => l) Dag g_demo 20 /\
+  fst (batch (fun l => l) Dag g_demo 20) =
+    ODone [6;0;3;0;2;0;1;1;4;0;2;0;1;1;1; 7;0;4;0;2;0;1;1;5;0;2;0;1;1;1]%N.
+Proof. vm_compute. split; reflexivity. Qed.
